@@ -24,15 +24,15 @@ LEVEL_TEXT = ("Lean theorems about total executable models of all seven parsers 
               "start/end/modulo); likewise Clustal (clustal_outcome_fixed); a Phylip success agrees with the counts declared in "
               "its header line (as read by the parser and as read by an independent naive scanner) and the end-of-stream marker "
               "needs a blank input (phylip_outcome_full); a Nexus success agrees with ntax / nchar / the TAXA labels as the "
-              "parser read them (nexus_counts_as_read); the unrepaired code "
+              "parser read them (nexus_counts_as_read); ParseMultiple terminates on every input (phylip_multi_outcome); the unrepaired code "
               "is refuted by kernel-evaluated counter-examples. Models are tied to /repo by regenerated "
               "guard facts + differential correspondence on every generated input; the C03 predicate itself is evaluated "
               "by the compiled oracle on the implementation's outcome for every input.")
 LEVEL_NOTE = ("Trusted: Lean kernel; harness + python watchdog (hang = no answer within 3 s on inputs < 1 kB); the naive "
               "header scanners of Spec/Fmt.lean; tools/extract/fmtfacts.go (syntactic recognition of the guards); "
               "bufio/UTF-8 decoding (models are ASCII-only: non-ASCII inputs carry no correspondence obligation but are "
-              "still judged by the predicate). Agreement of the Nexus DIMENSIONS reading with the naive scanner and termination of "
-              "the multi-Phylip stream loop are checked on the implementation only: see evidence 'partial'.")
+              "still judged by the predicate). Agreement of the Nexus DIMENSIONS reading with the naive scanner is checked on the "
+              "implementation only: see evidence 'partial'.")
 TECHNIQUE = "Lean 4 proof (total parser models, container invariant by induction over token lists) + exhaustive-truncation / mutation differential run"
 LEAN_MODULES = ["Gv.Props.C03"]
 REQUIRED_THEOREMS = ["Gv.Props.C03." + n for n in [
@@ -48,7 +48,7 @@ REQUIRED_THEOREMS = ["Gv.Props.C03." + n for n in [
     "phylip_no_hang", "phylip_outcome_fixed", "clustal_outcome_fixed",
     # consistency with the header counts / the end-of-stream marker (Proofs/PhylipHeader.lean)
     "phylip_counts_as_read", "phylip_header_consistent", "phylip_eos_blank", "phylip_eos_blank_to_eof",
-    "phylip_multi_counts", "phylip_outcome_full",
+    "phylip_multi_counts", "phylip_outcome_full", "phylip_multi_outcome",
     # Nexus: counts of the DIMENSIONS commands / TAXA block as the parser read them (Proofs/NexusHeader.lean)
     "nexus_counts_as_read", "nexus_header_consistent_partial"]]
 TRUSTED = ["bufio.Reader / UTF-8 rune decoding (inputs with bytes >= 128 are judged by the predicate only)",
@@ -85,8 +85,9 @@ PARTIAL = [
     "`declaredNexus` reads off the raw bytes (two independent tokenisations; nexus_header_consistent_partial states the "
     "clause under that hypothesis) — checked on the implementation by the oracle predicate on every run (the scanner now "
     "skips the `#NEXUS` word, which has no `;`: before, it never saw the DATA block of an ordinary file and the clause was "
-    "vacuous); termination of the multi-Phylip stream loop (every alignment it hands on is proved well formed and "
-    "consistent with its own header line: phylip_multi_wellformed, phylip_multi_counts)",
+    "vacuous). The multi-Phylip stream loop is now PROVED to terminate without panic / hang for the repaired code "
+    "(phylip_multi_outcome: every Parse call that hands on an alignment consumes input), every alignment it hands on being "
+    "well formed and consistent with its own header line (phylip_multi_wellformed, phylip_multi_counts)",
     "ParseAlignmentAuto: modelled as a first-byte dispatch over the single-parser models (C02.autodetect_selects_written_format)",
     "inputs with bytes >= 128 (UTF-8 decoding, incl. the repaired rune-index panic of strict Phylip names) and Phylip "
     "allocations of 2^27..2^44 entries (unrepaired code only): predicate only, no model",
